@@ -101,7 +101,11 @@ def handle (j : Json) : R Json := do
     let final := lastState states
     let waitMs := Generated.C11.putTimeoutMs + Generated.C11.waitTimeoutMs + slack
     let everClosing := final.closing
+    let re : RunEnd := { threadErrors := ← fldStrs j "threadErrors", disconnectRaised := ← fldStrs j "disconnectRaised",
+                         alive := ← fldStrs j "alive", deadlock := ← fldBool j "deadlock",
+                         unterminated := ← fldBool j "unterminated" }
     return Json.mkObj [
+      ("shutdown_clean", Json.bool (shutdownCleanB re)),
       ("first_parked", jopt jnat (firstParked tbl states 0)),
       ("reply_matches_known", Json.bool (replyMatchesKnownB tbl final)),
       ("reply_matches", Json.bool (replyMatchesB tbl final)),
